@@ -4,6 +4,7 @@ import (
 	"context"
 	"fmt"
 	"runtime"
+	"sync/atomic"
 	"time"
 
 	"go.uber.org/cff"
@@ -76,9 +77,12 @@ func (p *parEm) ParallelSuccess(context.Context)             { p.e.log("Parallel
 func (p *parEm) ParallelError(_ context.Context, err error)  { p.e.log("ParallelError", p.name, err) }
 func (p *parEm) ParallelDone(context.Context, time.Duration) { p.e.log("ParallelDone", p.name, nil) }
 
-type schedEm struct{ e *recEmitter }
+type schedEm struct {
+	e        *recEmitter
+	inflight atomic.Int32
+}
 
-func (e *recEmitter) SchedulerInit(*cff.SchedulerInfo) cff.SchedulerEmitter { return &schedEm{e} }
+func (e *recEmitter) SchedulerInit(*cff.SchedulerInfo) cff.SchedulerEmitter { return &schedEm{e: e} }
 
 func (s *schedEm) EmitScheduler(st cff.SchedulerState) {
 	x := s.e.x
@@ -90,6 +94,13 @@ func (s *schedEm) EmitScheduler(st cff.SchedulerState) {
 	if x.Sc.EmitGoexit {
 		x.EmitGoexits.Add(1)
 		runtime.Goexit()
+	}
+	if n := s.inflight.Add(1); n > 1 {
+		x.EmitOverlaps.Add(1)
+	}
+	defer s.inflight.Add(-1)
+	if x.Sc.SlowEmit {
+		time.Sleep(150 * time.Millisecond)
 	}
 	exec := st.Pending - st.Ready - st.Waiting
 	bad := ""
